@@ -14,6 +14,10 @@
 (*   "f32" "f64"        binary floats, as Num                              *)
 (*   "tags"             attribute tags [g, e]                              *)
 (*   "items"            sequence items: vals is a sequence of data sets    *)
+(*   "pat8" "pat16"     a long run of 8/16-bit unsigned integers given by  *)
+(*                      a rule: vals = << [n, a, b] >>, value number i     *)
+(*                      (from 0) is (a*i + b) mod 256 / mod 65536          *)
+(*   "u8c"              bytes as plain integers 0..255 (long byte values)  *)
 (* Num == [sp, neg, int, frac]: a decimal number in canonical form:        *)
 (*   sp = "" finite: value = (-1)^neg * int.frac, `int` without leading    *)
 (*   zeros ("0" for zero), `frac` without trailing zeros, zero not neg;    *)
@@ -63,6 +67,7 @@ NumStrVRs == {"IS", "DS", "SV", "UV"}                      \* JSON number or num
 BinVRs    == {"OB", "OD", "OF", "OL", "OV", "OW", "UN"}    \* InlineBinary
 IntReps   == {"u8", "u16", "i16", "i32", "u32", "i64", "u64"}
 FltReps   == {"f32", "f64"}
+LongReps  == {"pat8", "pat16", "u8c"}
 Width(rep) == CASE rep = "u8" -> 1 [] rep \in {"u16", "i16"} -> 2 [] rep \in {"i32", "u32", "f32"} -> 4
                 [] rep \in {"i64", "u64", "f64"} -> 8
 
@@ -185,18 +190,30 @@ BytesOf(el) ==
   ELSE IF el.rep \in IntReps THEN Flat([i \in 1..Len(el.vals) |-> LEInt(el.vals[i], Width(el.rep))])
   ELSE IF el.rep = "f32" THEN Flat([i \in 1..Len(el.vals) |-> F32LE[FKey(el.vals[i])]])
   ELSE IF el.rep = "f64" THEN Flat([i \in 1..Len(el.vals) |-> F64LE[FKey(el.vals[i])]])
+  ELSE IF el.rep = "u8c" THEN el.vals
+  ELSE IF el.rep = "pat8" THEN LET p == el.vals[1] IN [i \in 1..p.n |-> (p.a * (i - 1) + p.b) % 256]
+  ELSE IF el.rep = "pat16" THEN
+       LET p == el.vals[1]
+           V(k) == (p.a * k + p.b) % 65536
+       IN [i \in 1..(2 * p.n) |-> IF i % 2 = 1 THEN V((i - 1) \div 2) % 256 ELSE V((i - 2) \div 2) \div 256]
   ELSE <<>>
 
 (* RFC 4648 base64 with padding *)
 B64A == "ABCDEFGHIJKLMNOPQRSTUVWXYZabcdefghijklmnopqrstuvwxyz0123456789+/"
 B6(i) == Ch(B64A, i + 1)
-RECURSIVE Base64(_)
-Base64(b) ==
-  IF Len(b) = 0 THEN ""
-  ELSE IF Len(b) = 1 THEN B6(b[1] \div 4) \o B6((b[1] % 4) * 16) \o "=="
-  ELSE IF Len(b) = 2 THEN B6(b[1] \div 4) \o B6((b[1] % 4) * 16 + b[2] \div 16) \o B6((b[2] % 16) * 4) \o "="
-  ELSE B6(b[1] \div 4) \o B6((b[1] % 4) * 16 + b[2] \div 16) \o B6((b[2] % 16) * 4 + b[3] \div 64) \o B6(b[3] % 64)
-       \o Base64(Drop(b, 3))
+(* Base64 of the n bytes of b starting at index lo.  Long inputs are split  *)
+(* at a multiple of three bytes (where the encoding of the halves simply    *)
+(* concatenates), so that TLC builds O(n log n) characters of intermediate  *)
+(* strings instead of O(n^2).                                               *)
+RECURSIVE B64R(_, _, _)
+B64R(b, lo, n) ==
+  IF n = 0 THEN ""
+  ELSE IF n = 1 THEN B6(b[lo] \div 4) \o B6((b[lo] % 4) * 16) \o "=="
+  ELSE IF n = 2 THEN B6(b[lo] \div 4) \o B6((b[lo] % 4) * 16 + b[lo + 1] \div 16) \o B6((b[lo + 1] % 16) * 4) \o "="
+  ELSE IF n = 3 THEN B6(b[lo] \div 4) \o B6((b[lo] % 4) * 16 + b[lo + 1] \div 16)
+                     \o B6((b[lo + 1] % 16) * 4 + b[lo + 2] \div 64) \o B6(b[lo + 2] % 64)
+  ELSE LET h == 3 * ((n + 5) \div 6) IN B64R(b, lo, h) \o B64R(b, lo + h, n - h)
+Base64(b) == B64R(b, 1, Len(b))
 
 ---------------------------------------------------------------------------
 (* ordering by tag *)
@@ -258,13 +275,14 @@ PNJoin(j) ==     \* the PN value an Annex F person-name object stands for
   IN StripTrail(g("Alphabetic") \o "=" \o g("Ideographic") \o "=" \o g("Phonetic"), "=")
 
 ValueConforms(el, v, j) ==
-  IF el.vr = "PN" THEN
+  IF el.vr = "PN" /\ j.t = "null" THEN StripPad(v) = ""
+  ELSE IF el.vr = "PN" THEN
        /\ j.t = "obj" /\ Has(j, "Alphabetic") /\ Get(j, "Alphabetic").t = "str"
        /\ \A i \in 1..Len(j.m) : j.m[i].k \in {"Alphabetic", "Ideographic", "Phonetic"}
        /\ \/ (IsStrNode(Get(j, "Alphabetic"), StripPad(v)) /\ Len(j.m) = 1)
           \/ PNJoin(j) = StripTrail(StripPad(v), "=")
   ELSE IF el.vr = "AT" THEN IsStrNode(j, Hex8(v.g, v.e))
-  ELSE IF el.vr \in TextVRs THEN j.t = "str" /\ StripPad(j.s) = StripPad(v)
+  ELSE IF el.vr \in TextVRs THEN (j.t = "str" /\ StripPad(j.s) = StripPad(v)) \/ (j.t = "null" /\ StripPad(v) = "")
   ELSE IF el.vr \in {"FL", "FD"} THEN
        IF Denot(el.rep, v).sp = "" THEN IsNumNode(j, Denot(el.rep, v))
        ELSE IsStrNode(j, NonFiniteText(v))
@@ -334,8 +352,10 @@ NormElem(el) ==
   IN IF el.rep = "empty" THEN el
      ELSE IF el.rep = "items" THEN With("items", LAMBDA v : NormJson(v))
      ELSE IF el.vr \in BinVRs THEN
-          IF BytesOf(el) = <<>> THEN [el EXCEPT !.rep = "empty", !.vals = <<>>]
-          ELSE [el EXCEPT !.rep = "u8", !.vals = U8Vals(BytesOf(el))]
+          LET bytes == BytesOf(el) IN
+          IF bytes = <<>> THEN [el EXCEPT !.rep = "empty", !.vals = <<>>]
+          ELSE IF Len(bytes) > 256 THEN [el EXCEPT !.rep = "u8c", !.vals = bytes]
+          ELSE [el EXCEPT !.rep = "u8", !.vals = U8Vals(bytes)]
      ELSE IF el.vr = "AT" THEN el
      ELSE IF el.vr \in TextVRs \cup {"PN"} THEN With("strs", LAMBDA v : StripPad(v))
      ELSE IF el.vr \in {"IS", "DS"} THEN
@@ -354,9 +374,12 @@ AbsElem(el) ==
   IN IF el.rep = "empty" \/ n = 0 THEN Mk("none", <<>>)
      ELSE IF el.rep = "items" THEN Mk("items", Map(LAMBDA v : AbsDs(v)))
      ELSE IF el.rep = "tags" THEN Mk("tags", el.vals)
+     ELSE IF el.rep \in LongReps THEN Mk("bytes", BytesOf(el))
      ELSE IF el.vr \in BinVRs /\ el.rep \in IntReps \cup FltReps THEN Mk("bytes", BytesOf(el))
      ELSE IF el.rep \in {"str", "strs"} THEN
           IF el.vr \in NumStrVRs \cup NumVRs THEN Mk("num", Map(LAMBDA v : ParseDec(v)))
+          (* one value that is blank is a zero-length value *)
+          ELSE IF n = 1 /\ StripPad(el.vals[1]) = "" THEN Mk("none", <<>>)
           ELSE Mk("text", Map(LAMBDA v : StripPad(v)))
      ELSE Mk("num", el.vals)
 AbsDs(ds) == LET s == SortByTag(ds) IN [i \in 1..Len(s) |-> AbsElem(s[i])]
